@@ -783,13 +783,24 @@ pub fn run(ctx: &mut Ctx) {
     });
 
     // oversize stream (hang / memory): 2^24-1 handshake message in 16 KiB records, 3x the cap
-    let streams = ctx.tier.pick(2, 8);
+    let streams = ctx.tier.pick(6, 12);
     ctx.family("defrag-stream", streams, |ctx, case: &mut Case| {
         let r = &mut case.rng;
         let mut p = TlsRecordsParser::default();
         let ty = if case.idx % 2 == 0 { 0x16 } else { 0x18 };
+        // how the defragmentation starts: a message that never completes; or one that completes into a parse error
+        // after a first 3-byte fragment (unknown handshake type / malformed ClientHello), leaving the parser in
+        // progress in that state; the cap must hold for everything that is fed afterwards in all cases
+        let mode = (case.idx / 2) % 3;
         let mut first = if ty == 0x16 { vec![20, 0xff, 0xff, 0xff] } else { vec![1, 0xff, 0xff] };
         first.extend(r.bytes(16000));
+        if ty == 0x16 && mode > 0 {
+            let head: &[u8] = if mode == 1 { &[0xff, 0, 0] } else { &[1, 0, 0] };
+            let _ = crate::ctx::guard(|| {
+                let _ = p.parse_record(TlsRawRecord { hdr: TlsRecordHeader { record_type: TlsRecordType(ty), version: TlsVersion(0x0303), len: 3 }, data: head });
+            });
+            first = vec![1, 0x55]; // completes a 1-byte message of unknown type / a 1-byte ClientHello body
+        }
         let chunk = r.bytes(16384);
         let base = alloc::live();
         let mut maxbuf = 0usize;
@@ -814,11 +825,11 @@ pub fn run(ctx: &mut Ctx) {
         }
         let held = alloc::live().saturating_sub(base);
         ctx.max("defrag.max_buffer", maxbuf as u64);
-        ctx.shape(&("stream", ty, refused > 0));
+        ctx.shape(&("stream", ty, mode, refused > 0));
         // a heartbeat stream completes (payload_length 65535) well before the cap; a handshake one must hit it
         if maxbuf >= MAX_RECORD_DATA || held > 3 * MAX_RECORD_DATA + BOUND_CONST {
             ctx.violation("c01:heap-bound:TlsRecordsParser-stream".into(), json!({"max_buffer": maxbuf, "held": held}));
-        } else if ty == 0x16 && refused == 0 {
+        } else if ty == 0x16 && mode == 0 && refused == 0 {
             ctx.violation("c01:defrag-stream:cap-never-refused".into(), json!({"max_buffer": maxbuf}));
         } else {
             ctx.count("defrag.streams");
